@@ -12,6 +12,9 @@ def tab : Array PLine := parseTab Data.tabChunks
 /-- factorisations of `p^n - 1`, one per database entry (untrusted data; checked by `entryOK`) -/
 def certs : Array (List (Nat × Nat)) := parseCerts Data.certChunks
 
-def entryOKAtData (i : Nat) : Bool := entryOKAt tab certs i
+/-- Rabin certificates, one per database entry (untrusted data; checked by `rabinOK`) -/
+def rcerts : Array (List (Nat × List Nat)) := parseRabin Data.rabinChunks
+
+def entryOKAtData (i : Nat) : Bool := entryOK2At tab certs rcerts i
 
 end Algobra.C04Check
